@@ -88,6 +88,9 @@ fn main() {
         "i32" => run!(i32, t),
         "i64" => run!(i64, t),
         "i128" => run!(i128, t),
+        "i8" => run!(i8, t),
+        "i16" => run!(i16, t),
+        "isize" => run!(isize, t),
         other => {
             eprintln!("harness: unknown type {}", other);
             std::process::exit(3)
